@@ -7,8 +7,11 @@ type Job struct {
 	H          string   // harness function in /verif/gobmc/harness
 	K, U       int      // global steps, loop unwinding
 	MapCap     int      // slots per map (0 = default 3)
+	AppendCap  int      // cells for appends to symbolic-length slices (0 = default 4)
 	Prune      bool     // solver-assisted pruning of infeasible configurations
 	Race       bool     // add the data-race violation class
+	Spin       bool     // unwinding failures of library loops are violations (busy loop)
+	Preempt    int      // bound on preemptions (0 = unbounded; n>0 = at most n)
 	Only       string   // restrict the violation disjunction
 	Covers     int      // cover witnesses to extract and replay natively
 	Fixes      []string // case splits (one engine run each, same process)
@@ -114,6 +117,29 @@ func uniqCases() []string {
 	return out
 }
 
+// keyedCases: case splits for H_C06_History with a release delay: all histories of 3 operations
+func keyedCases(n int, alphabet []int) []string {
+	var out []string
+	for _, a := range alphabet {
+		for _, b := range alphabet {
+			for _, c := range alphabet {
+				out = append(out, fmt.Sprintf("delay=1,op0=%d,op1=%d,op2=%d", a, b, c))
+			}
+		}
+	}
+	return out
+}
+
+func keyedCases2(alphabet []int) []string {
+	var out []string
+	for _, a := range alphabet {
+		for _, b := range alphabet {
+			out = append(out, fmt.Sprintf("delay=1,op0=%d,op1=%d", a, b))
+		}
+	}
+	return out
+}
+
 func cat(js ...[]Job) []Job {
 	var out []Job
 	for _, j := range js {
@@ -175,6 +201,108 @@ func init() {
 		},
 		Bounds:  "1-2 waiters, 1-2 broadcasting critical sections through HoldLock / TryHoldLock / HoldLockMaybeAsync (incl. its goroutine slow path), cancellation of the waiter at any moment; generation harness with a concurrent third party; K<=30, U=3",
 		Outside: "more than 2 waiters / 3 broadcasters",
+	}
+
+	plans["C04"] = Plan{
+		Quick: []Job{
+			{H: "H_C04_Restart2", K: 36, U: 3, Prune: true, Preempt: 2, Only: "routine-overlap|wait-return|setstate-channel|panic/", TimeoutSec: 900},
+			{H: "H_C04_SetRoutine2", K: 40, U: 3, Prune: true, Preempt: 2, Only: "routine-overlap|wait-return|setstate-channel|panic/", TimeoutSec: 900},
+			{H: "H_C04_SetContext2", K: 36, U: 3, Prune: true, Preempt: 2, Only: "routine-overlap|wait-return|setstate-channel|panic/", TimeoutSec: 900},
+			{H: "H_C04_State2", K: 44, U: 3, Prune: true, Preempt: 2, Only: "routine-overlap|wait-return|setstate-channel|panic/", TimeoutSec: 900},
+		},
+		Thorough: []Job{
+			{H: "H_C04_Restart2", K: 44, U: 3, Prune: true, Only: "routine-overlap|wait-return|setstate-channel|panic/", TimeoutSec: 3000, QueryMs: 2400000},
+			{H: "H_C04_SetRoutine2", K: 44, U: 3, Prune: true, Preempt: 3, Only: "routine-overlap|wait-return|setstate-channel|panic/", TimeoutSec: 3000, QueryMs: 2400000},
+			{H: "H_C04_Retry", K: 44, U: 3, Prune: true, Preempt: 2, Only: "routine-overlap|panic/", TimeoutSec: 3000},
+		},
+		Bounds:  "one driver; scripts of 2-3 supersessions issued inside one exit latency of the running instance (Restart;Restart / Restart;SetRoutine;Restart / SetContext(B);Restart / SetState;SetState;Restart), followed by ClearContext; instances run until cancelled and return whenever scheduled; <= 4 instances; K=36-44, U=3; quick tier: schedules with at most 2 preemptions (context bound), thorough: 3 / unbounded",
+		Outside: "more than 3 supersessions, several drivers (see C05)",
+	}
+
+	plans["C05"] = Plan{
+		Quick: []Job{
+			{H: "H_C05_TwoDrivers", K: 44, U: 4, Prune: true, Preempt: 2, TimeoutSec: 900},
+			{H: "H_C05_StateVsRestart", K: 48, U: 4, Prune: true, Preempt: 2, TimeoutSec: 900},
+			{H: "H_C05_Survivor", K: 48, U: 4, Prune: true, Preempt: 2, TimeoutSec: 900},
+		},
+		Bounds:  "StateRoutineContainer with instances that run until cancelled; two concurrent drivers (SetState || SetContext;ClearContext and SetState || RestartRoutine) and one driver with a symbolic script of 2 operations out of {SetState(2), SetState(empty), RestartRoutine, SetContext(B), ClearContext}; checks at quiescence; <= 5 instances; K=44-48, U=4; schedules with at most 2 preemptions (context bound)",
+		Outside: "more than 2 concurrent drivers, more than 2 scripted operations, instances that exit on their own (see C14)",
+	}
+	plans["C14"] = Plan{
+		Quick: []Job{
+			{H: "H_C14_Machine2", K: 60, U: 3, Prune: true, TimeoutSec: 1200},
+			{H: "H_C14_Machine2B", K: 60, U: 3, Prune: true, TimeoutSec: 1200},
+		},
+		Thorough: []Job{
+			{H: "H_C14_Machine3B", K: 80, U: 3, Prune: true, TimeoutSec: 6000, QueryMs: 3000000},
+		},
+		Bounds:  "one driver that waits for quiescence between operations; 2 (thorough 3) symbolic operations out of {RestartRoutine, SetContext(same,restart), SetContext(same), SetContext(other), ClearContext, backoff interval passes}; each of the first three instances succeeds, fails or runs until cancelled (symbolic); with and without a retry backoff; reference state machine in the harness",
+		Outside: "operations issued while an instance is between 'returned' and 'recorded' (C05 covers overlapping calls), more than 3 operations, backoff durations",
+	}
+
+	all8 := []int{0, 1, 2, 3, 4, 5, 6, 7}
+	plans["C06"] = Plan{
+		Quick: cat(
+			[]Job{
+				{H: "H_C06_History", K: 30, U: 4, Fixes: []string{"delay=0"}, TimeoutSec: 900},
+				{H: "H_C06_RefCount", K: 6, U: 8, AppendCap: 6},
+			},
+			split(Job{H: "H_C06_History", K: 44, U: 4, Fixes: keyedCases(3, []int{0, 2, 4, 5, 7}), TimeoutSec: 1800}, 13),
+		),
+		Thorough: cat(
+			split(Job{H: "H_C06_History", K: 50, U: 4, Fixes: keyedCases(3, all8), TimeoutSec: 6000}, 14),
+			[]Job{{H: "H_C06_SyncKeepsKey", K: 48, U: 3, Prune: true, TimeoutSec: 3000, Weight: 3}},
+		),
+		Bounds:  "keys {1,2}; symbolic histories of 3 operations out of {SetKey(k), RemoveKey(k), SyncKeys(any subset, with a duplicate)} without release delay (fully symbolic) and, with a release delay, the 125 histories of 3 operations over {SetKey(1), RemoveKey(1), SyncKeys({}), SyncKeys({1}), SyncKeys({1,2,2})} (thorough: all 512 over both keys; case split) followed by the expiry of the delay; KeyedRefCount: 2 references then 3 symbolic operations out of {release A, release B, RemoveKey, AddKeyRef}; container without context in the history harnesses, with context in H_C06_SyncKeepsKey",
+		Outside: "more than 2 keys, durations, map iteration orders other than slot order",
+	}
+
+	plans["C11"] = Plan{
+		Quick: []Job{
+			{H: "H_C11_Promise", K: 34, U: 3, Covers: 1, TimeoutSec: 900},
+			{H: "H_C11_CanceledResult", K: 30, U: 6, Spin: true},
+			{H: "H_C11_Container", K: 34, U: 4, Spin: true, Covers: 2, TimeoutSec: 900},
+		},
+		Bounds:  "Promise: 2 concurrent SetResult (value, error incl. context.Canceled) and 3 awaiters (Await / AwaitWithErrCh / AwaitWithCancelCh, one cancellable at any moment); PromiseContainer: a result whose error is context.Canceled awaited through each of the 3 flavours (busy loop = unwinding failure of the await loop at U=6); awaiter concurrent with SetPromise / SetPromise(nil) / SetResult and the resolution of the contained promise; K<=34",
+		Outside: "more than 2 setters / 3 awaiters; CPU time as such ('does not spin' is judged by loop unwinding)",
+	}
+	plans["C12"] = Plan{
+		Quick: []Job{
+			{H: "H_C12_LIFOOrder", K: 34, U: 3, TimeoutSec: 900},
+			{H: "H_C12_PushPushPop", K: 34, U: 3, TimeoutSec: 900},
+			{H: "H_C12_LinkedList", K: 34, U: 3, TimeoutSec: 900},
+		},
+		Thorough: []Job{
+			{H: "H_C12_Conserve", K: 34, U: 3, TimeoutSec: 3000},
+		},
+		Bounds:  "AtomicLIFO: 2 threads x 2 operations (push;push || pop;pop with the full set of linearizable outcomes enumerated in the harness, 2 pushers || 2 pops, push;pop || push;pop) with every interleaving of the individual atomic loads and compare-and-swaps; CAS retry loops unwound 3 times (unwinding query unsat); LinkedList: Push;Push || PushFront || Pop;PeekTail;Pop; conservation checked by draining at quiescence",
+		Outside: "more than 4 operations / 3 threads; ABA under manual node reuse (nodes are garbage collected)",
+	}
+	plans["C15"] = Plan{
+		Quick: []Job{
+			{H: "H_C15_Swap", K: 34, U: 3, TimeoutSec: 900},
+			{H: "H_C15_Waiters", K: 34, U: 3, TimeoutSec: 900},
+			{H: "H_C15_Equal", K: 30, U: 3},
+		},
+		Bounds:  "2 SwapValue incrementers + 1 SetValue + 1 WaitValueChange waiter; writer + WaitValue (cancellable at any moment) + WaitValueWithValidator with an error channel; custom equality; K<=34, U=3",
+		Outside: "more than 3 writers / 2 waiters",
+	}
+	plans["C16"] = Plan{
+		Quick: []Job{
+			{H: "H_C16_Once", K: 40, U: 3, TimeoutSec: 900},
+			{H: "H_C16_Memo", K: 34, U: 3},
+		},
+		Bounds:  "promise.Once: 3 concurrent Resolve callers (one retries after an error), function fails on its first call or not (symbolic), first caller cancellable at any moment; memo: 3 concurrent callers, success or error; K<=40",
+		Outside: "more than 3 callers; more than one failing call",
+	}
+	plans["C18"] = Plan{
+		Quick: []Job{
+			{H: "H_C18_Limit1", K: 40, U: 4, TimeoutSec: 900},
+			{H: "H_C18_Limit2", K: 40, U: 4, TimeoutSec: 900},
+			{H: "H_C18_Unlimited", K: 34, U: 3},
+		},
+		Bounds:  "limit 1: one initial job + Enqueue(2 jobs) || Enqueue(1 job) + WaitIdle; limit 2: Enqueue(2) || Enqueue(1) + WatchState observer; unlimited: Enqueue(2) + WaitIdle; jobs of arbitrary relative duration (they finish whenever scheduled); K<=40",
+		Outside: "more than 4 jobs, more than 2 producers",
 	}
 
 	boundary := []int{0, 1, 2, 30, 31, 32, 33, 62, 63, 64, 65}
